@@ -1,6 +1,7 @@
 (* The representation relation of the CPC sketch and the lemmas for the two rebuilding steps:
    from_matrix (window move, union result) and promote_sparse_to_windowed. *)
 From DS Require Import Base.Prelude Model.Cpc Proofs.CpcBits Proofs.CpcSpec Proofs.CpcProofs.
+From Coq Require Import Permutation.
 From Coq Require Import ZifyBool ZifyNat ZifyN.
 Ltac Zify.zify_post_hook ::= Z.div_mod_to_equations.
 Open Scope N_scope.
@@ -47,6 +48,67 @@ Proof.
   - rewrite (rep_num s M R). apply pop_rows_ext. intros i _. symmetry. apply spec_update_same. exact HM.
 Qed.
 
+(* ---------- the number of surprising values a matrix needs at a window offset ---------- *)
+(* all positions row * 64 + col of a 2^lgk x 64 matrix *)
+Definition positions (lgk : N) : list N := map N.of_nat (seq 0 (N.to_nat (64 * 2 ^ lgk))).
+
+(* is position x a surprising value?  sparse mode ([wd] = false): every set bit; windowed mode at offset w: a zero
+   before the window, a one after it *)
+Definition surp (M : matrix) (wd : bool) (w x : N) : bool :=
+  let r := x / 64 in
+  let c := x mod 64 in
+  if wd then (if c <? w then negb (N.testbit (M r) c) else if c <? w + 8 then false else N.testbit (M r) c)
+  else N.testbit (M r) c.
+
+Definition load (lgk : N) (M : matrix) (wd : bool) (w : N) : N :=
+  N.of_nat (length (filter (surp M wd w) (positions lgk))).
+
+Lemma positions_In : forall lgk x, In x (positions lgk) <-> x < 64 * 2 ^ lgk.
+Proof.
+  intros lgk x. unfold positions. rewrite in_map_iff. split.
+  - intros [i [<- Hi]]. apply in_seq in Hi. lia.
+  - intros H. exists (N.to_nat x). split; [lia|]. apply in_seq. lia.
+Qed.
+
+Lemma positions_NoDup : forall lgk, NoDup (positions lgk).
+Proof.
+  intros lgk. unfold positions. apply FinFun.Injective_map_NoDup; [|apply seq_NoDup].
+  intros a b H. lia.
+Qed.
+
+(* a duplicate-free list that contains exactly the positions satisfying P has as many elements as the filter *)
+Lemma count_by_filter : forall lgk (P : N -> bool) l, NoDup l ->
+  (forall x, In x l <-> x < 64 * 2 ^ lgk /\ P x = true) ->
+  N.of_nat (length l) = N.of_nat (length (filter P (positions lgk))).
+Proof.
+  intros lgk P l ND H. f_equal. apply Permutation_length. apply NoDup_Permutation.
+  - exact ND.
+  - apply NoDup_filter. apply positions_NoDup.
+  - intros x. rewrite filter_In, positions_In. apply H.
+Qed.
+
+(* the table of a state that represents M holds exactly the surprising values of M *)
+Lemma table_load : forall s M, Rep s M ->
+  N.of_nat (length (tlist s)) = load (c_lgk s) M (windowed s) (c_off s).
+Proof.
+  intros s M [W Hb Hn]. unfold load. apply count_by_filter; [apply (wf_nodup s W)|].
+  pose proof (pow_pos (c_lgk s)) as HK.
+  intros x. unfold surp. split.
+  - intros Hin. pose proof (wf_rows s W x Hin) as Hr. split; [lia|].
+    assert (Hc : x mod 64 < 64) by lia.
+    rewrite <- (Hb (x / 64) (x mod 64) Hr Hc). unfold sk_bit. rewrite rc_recompose.
+    assert (Hm : memN x (tlist s) = true) by (apply memN_In; exact Hin).
+    destruct (windowed s) eqn:Ew; [|exact Hm].
+    destruct (wf_zone s W Ew x Hin) as [Hz|Hz].
+    + assert (x mod 64 <? c_off s = true) as -> by lia. rewrite Hm. reflexivity.
+    + assert (x mod 64 <? c_off s = false) as -> by lia. assert (x mod 64 <? c_off s + 8 = false) as -> by lia. exact Hm.
+  - intros [Hx Hs]. assert (Hr : x / 64 < 2 ^ c_lgk s) by lia. assert (Hc : x mod 64 < 64) by lia.
+    rewrite <- (Hb (x / 64) (x mod 64) Hr Hc) in Hs. unfold sk_bit in Hs. rewrite rc_recompose in Hs.
+    apply memN_In. destruct (windowed s); [|exact Hs].
+    destruct (x mod 64 <? c_off s); [destruct (memN x (tlist s)); [reflexivity|discriminate]|].
+    destruct (x mod 64 <? c_off s + 8); [discriminate|exact Hs].
+Qed.
+
 (* ---------- from_matrix ---------- *)
 Lemma map_nonempty : forall {A B} (f : A -> B) l, l <> [] -> map f l <> [].
 Proof. intros A B f [|x l] H; [congruence|discriminate]. Qed.
@@ -67,7 +129,7 @@ Proof. intros A [|x l] H; [cbn in H; lia|discriminate]. Qed.
 Lemma from_matrix_state : forall lgk m off C fic0 mg kxp hip win tab fic,
   length m = Knat lgk -> Forall word64 m -> off <= 56 -> C <> 0 ->
   (forall r c, r < 2 ^ lgk -> c < 64 -> N.testbit (nthN m r 0) c = true -> r * 64 + c <> U32MAX) ->
-  from_matrix 255 255 off m = Ok (win, tab, fic) ->
+  from_matrix lgk 255 255 off m = Ok (win, tab, fic) ->
   let s := mkCpc lgk fic0 C (Some tab) off win mg kxp hip in
   Wf s /\ windowed s = true /\
   (forall r c, r < 2 ^ lgk -> c < 64 -> sk_bit s r c = N.testbit (nthN m r 0) c).
@@ -75,6 +137,7 @@ Proof.
   intros lgk m off C fic0 mg kxp hip win tab fic Hlen Hw64 Hoff HC Hnomax Hfm s. subst s.
   unfold from_matrix in Hfm.
   destruct (memN U32MAX (fm_pairs 0 (map (fm_pattern 255 off) m))) eqn:Emax; [discriminate|].
+  destruct (tbl_full lgk (N.of_nat (length (fm_pairs 0 (map (fm_pattern 255 off) m))))) eqn:Efull; [discriminate|].
   injection Hfm as Ewin Etab Efic.
   set (pats := map (fm_pattern 255 off) m) in *.
   assert (Hp64 : Forall word64 pats).
@@ -122,13 +185,41 @@ Proof.
     + assert (c <? 64 = true) as -> by lia. reflexivity.
 Qed.
 
-(* from_matrix succeeds when the matrix does not contain the unstorable pair *)
+(* the pairs listed by from_matrix are exactly the surprising values of the matrix at that offset *)
+Lemma fm_pairs_load : forall lgk m off, length m = Knat lgk -> off <= 56 ->
+  N.of_nat (length (fm_pairs 0 (map (fm_pattern 255 off) m))) = load lgk (fun r => nthN m r 0) true off.
+Proof.
+  intros lgk m off Hlen Hoff. set (pats := map (fm_pattern 255 off) m).
+  assert (Hp64 : Forall word64 pats).
+  { unfold pats. apply Forall_forall. intros p Hp. apply in_map_iff in Hp. destruct Hp as [q [<- _]].
+    apply fm_pattern_word64. exact Hoff. }
+  assert (Hplen : length pats = Knat lgk) by (unfold pats; rewrite map_length; exact Hlen).
+  pose proof (pow_pos lgk) as HK.
+  unfold load. apply count_by_filter; [apply fm_pairs_NoDup; exact Hp64|].
+  intros x. rewrite (fm_pairs_In pats 0 x Hp64), Hplen, Knat_N, N.sub_0_r. unfold surp.
+  assert (Hc : x mod 64 < 64) by lia.
+  split.
+  - intros [_ [H2 H3]]. split; [lia|]. unfold pats in H3.
+    rewrite (nthN_map _ _ _ 0) in H3 by (rewrite Hlen, Knat_N; lia).
+    rewrite fm_pattern_bits in H3 by exact Hoff.
+    destruct (x mod 64 <? off); [exact H3|]. destruct (x mod 64 <? off + 8); [discriminate|].
+    assert (x mod 64 <? 64 = true) as E by lia. rewrite E in H3. exact H3.
+  - intros [H2 H3]. split; [lia|]. split; [lia|]. unfold pats.
+    rewrite (nthN_map _ _ _ 0) by (rewrite Hlen, Knat_N; lia).
+    rewrite fm_pattern_bits by exact Hoff.
+    destruct (x mod 64 <? off); [exact H3|]. destruct (x mod 64 <? off + 8); [discriminate|].
+    assert (x mod 64 <? 64 = true) as -> by lia. exact H3.
+Qed.
+
+(* from_matrix succeeds when the matrix does not contain the unstorable pair and its surprising values fit the table *)
 Lemma from_matrix_succeeds : forall lgk m off,
   length m = Knat lgk -> off <= 56 ->
   (forall r c, r < 2 ^ lgk -> c < 64 -> N.testbit (nthN m r 0) c = true -> r * 64 + c <> U32MAX) ->
-  exists win tab fic, from_matrix 255 255 off m = Ok (win, tab, fic).
+  tbl_full lgk (load lgk (fun r => nthN m r 0) true off) = false ->
+  exists win tab fic, from_matrix lgk 255 255 off m = Ok (win, tab, fic).
 Proof.
-  intros lgk m off Hlen Hoff Hnomax. unfold from_matrix.
+  intros lgk m off Hlen Hoff Hnomax Hfit. unfold from_matrix.
+  rewrite (fm_pairs_load lgk m off Hlen Hoff), Hfit.
   set (pats := map (fm_pattern 255 off) m).
   assert (Hp64 : Forall word64 pats).
   { unfold pats. apply Forall_forall. intros p Hp. apply in_map_iff in Hp. destruct Hp as [q [<- _]].
@@ -216,8 +307,8 @@ Proof.
         apply lor_bit_byte; [|lia]. apply nthN_Forall; [exact Hb|exact Hxr].
       * intros y Hy Hy'. apply (Hdisj y Hy). right. exact Hy'.
     + (* into the new table *)
-      assert (Ex : fst (tbl_insert x t) = x :: t).
-      { unfold tbl_insert. assert (x =? U32MAX = false) as ->.
+      assert (Ex : fst (tbl_insert_nocap x t) = x :: t).
+      { unfold tbl_insert_nocap. assert (x =? U32MAX = false) as ->.
         { apply N.eqb_neq. apply Hnomax. left. reflexivity. }
         assert (memN x t = false) as ->.
         { apply memN_false. intros H. apply (Hdisj x H). left. reflexivity. }
@@ -236,4 +327,13 @@ Proof.
       * reflexivity.
       * constructor; [|exact NDt]. intros H. apply (Hdisj x H). left. reflexivity.
       * intros y [Hy|Hy] Hy'; [subst; contradiction|]. apply (Hdisj y Hy). right. exact Hy'.
+Qed.
+
+Lemma from_matrix_fic : forall lgk ff ff2 off m win tab fic,
+  from_matrix lgk ff ff2 off m = Ok (win, tab, fic) -> fic = fm_fic off (map (fm_pattern ff off) m).
+Proof.
+  intros lgk ff ff2 off m win tab fic H. unfold from_matrix in H.
+  destruct (memN U32MAX (fm_pairs 0 (map (fm_pattern ff off) m))); [discriminate|].
+  destruct (tbl_full lgk (N.of_nat (length (fm_pairs 0 (map (fm_pattern ff off) m))))); [discriminate|].
+  injection H as _ _ <-. reflexivity.
 Qed.
